@@ -62,6 +62,15 @@ class BuilderHooks(C04.ParserHooks):
             num.cell_store(st, st.env.get(bb + "buffer"))
             t = num.ty(e)
             return Poly.const(0) if ok else Poly.atom(num.fresh(st, "append", t, (-1, 0)))
+        if e.get("callee") in ("snprintf", "__builtin___snprintf_chk") and len(e.get("a", [])) >= 3:
+            # the text printed into a local array that holds its longest rendering (BUILDER number-text-fits decides that)
+            # is shorter than the array: the result is the number of characters written, below the size handed in
+            sz = num.fn.is_const(RU.uncast(num.fn, e["a"][1]))
+            r = C04.ParserHooks.call(self, num, st, e, args)
+            if sz is not None and sz >= 1:
+                a = Poly.atom(num.fresh(st, "printed", None, (0, sz - 1)))
+                return a
+            return r
         return C04.ParserHooks.call(self, num, st, e, args)
 
 
